@@ -9,7 +9,7 @@ from . import parsers as P
 
 TECHNIQUE = "static analysis: as C09 (grammar IR, key agreement, number bases, classification order, numbering) plus affine/exponent checks of the index scale, alias prefixes, inclusive register ranges; (thorough) language inclusion in the grammar's regular envelope"
 EXPLANATION = (
-    "R1-R6 and T as for C09 on ParserAArch64 (classification order: comment, label, directive, instruction - the directive attempt must precede the instruction attempt because '.byte 100' also parses as an instruction). R8: the memory scale is 2 ** (shift amount of the index register) under the shift/extend operations allowed there, default 1. R9: sp/zr as base or index get prefix x; a bare sp operand becomes x + sp; '!' sets pre_indexed; a post-index immediate is stored converted. R10: register ranges expand inclusively (int(end) + 1) from the first to the last register, lists keep their order, a trailing index is propagated to every member. R12: a field the parser itself fills with numbers (the element index of an expanded list/range member is int(...)) is never presence-tested by truthiness (`x.get('index') or None`, `v if v else None`): 0 is a value."
+    "R1-R6 and T as for C09 on ParserAArch64 (classification order: comment, label, directive, instruction - the directive attempt must precede the instruction attempt because '.byte 100' also parses as an instruction). R8: the memory scale is 2 ** (shift amount of the index register) under the shift/extend operations allowed there, default 1. R9: sp/zr as base or index get prefix x; a bare sp operand becomes x + sp; '!' sets pre_indexed; a post-index immediate is stored converted. R10: register ranges expand inclusively (int(end) + 1) from the first to the last register, lists keep their order, a trailing index is propagated to every member. R12: a field the parser itself fills with numbers (the element index of an expanded list/range member is int(...)) is never presence-tested by truthiness (`x.get('index') or None`, `v if v else None`): 0 is a value. R13: as C09-R8 - order-sensitive pairs of alternatives (register vs. identifier/immediate, condition code vs. immediate, register index vs. offset, hexadecimal vs. decimal) are listed in the reviewed order of spec/grammar_order.json."
 )
 NOT_DECIDED = (
     "That the recovered operand values equal the written ones for every input (pyparsing's run time) and "
@@ -124,6 +124,7 @@ def run(ctx):
     ctx.check(len(ext) == 5, "R10", "expanded lists are spliced into the operand list in place", inst.where(),
               "register lists are not extended into the operand list for all five operand slots", inst.qname, "splice lists")
     P.r6_trailing(ctx, CLS, gr)
+    P.r8_order(ctx, CLS, gr, "R13")
     P.t_terminals(ctx, CLS, gr)
     # immediates
     ctx.rule("R11", "immediates: integer values normalised with base 0; float/double keep mantissa/exponent; '#' optional")
